@@ -1,15 +1,15 @@
-// C14_probe.hpp — audited steps run in a helper process so that a crash / sanitizer abort / hang of the library becomes an
-// ordinary oracle failure of THIS transition (with the operation history as witness).
+// C14_probe.hpp — result sink of one audited step, and the "black box" that makes crashes inside E1 exploration replayable.
 //
-// Why: vf::Runner::explore records a dying worker with the level-local case index as witness, which cannot be replayed as a
-// history. Here every engine worker keeps one helper child (forked lazily, re-forked after it died). For each transition the
-// worker sends (history, op); the helper builds a fresh system, replays the history, runs the audited step and ships its
-// findings back. When the helper dies or does not answer, the worker reports crash|<site>|<kind> / hang|<site> itself.
-// (One fork per transition was measured at 5 ms under load on the sanitized binary — too slow; hence the persistent helper.)
+// Why the black box: vf::Runner::explore records a worker that died (sanitizer abort, libstdc++ assertion, signal) or hung
+// with the level-local case index as witness; that cannot be replayed as an operation history. Every worker therefore writes
+// "B <case index> <site> <history>" to its own file before an audited step and flips the B to E afterwards. After
+// R.explore() returned, records still starting with B belong to cases that never finished; recoverWitnesses() puts their
+// history into the corresponding crash|... / hang|... violation (matched on case index and site).
+// (Running each step in a helper process was tried first: correct, but the ping-pong costs ~10 ms per transition on the
+// loaded machine.)
 #pragma once
 #include "vf.hpp"
-#include <sys/mman.h>
-#include <poll.h>
+#include <dirent.h>
 
 namespace c14 {
 
@@ -28,122 +28,60 @@ struct Sink {
   void tag(const std::string& k) { if (!quiet) tags.push_back(k); }
 };
 
-struct ProbeResult {
-  int how = 0;  // 0 helper answered, 1 helper died, 2 helper did not answer in time
-  std::string kind, frames, errtail;
-  Sink sink;
+inline std::string& bbDir() { static std::string d; return d; }
+struct BlackBox {
+  int fd = -1; pid_t owner = 0;
+  void open_() {
+    if (owner == getpid() && fd >= 0) return;
+    owner = getpid();
+    std::string p = bbDir() + "/c14bb." + vf::str((long)owner);
+    fd = ::open(p.c_str(), O_RDWR | O_CREAT | O_TRUNC, 0600);
+  }
+  void begin(const std::string& k, const std::string& site, const std::string& hist) {
+    if (bbDir().empty()) return; open_(); if (fd < 0) return;
+    std::string r = "B\t" + k + "\t" + site + "\t" + hist + "\n";
+    if (pwrite(fd, r.data(), r.size(), 0) != (ssize_t)r.size()) return;
+    if (ftruncate(fd, (off_t)r.size())) {}
+  }
+  void end() { if (fd >= 0 && owner == getpid()) { if (pwrite(fd, "E", 1, 0) != 1) {} } }
 };
+inline BlackBox& blackBox() { static BlackBox b; return b; }
 
-inline void writeAll(int fd, const std::string& s) {
-  size_t off = 0;
-  while (off < s.size()) { ssize_t n = ::write(fd, s.data() + off, s.size() - off); if (n <= 0) { if (n < 0 && errno == EINTR) continue; break; } off += (size_t)n; }
-}
-inline std::string readAllAt0(int fd) {
-  std::string r; char buf[8192];
-  lseek(fd, 0, SEEK_SET);
-  for (;;) { ssize_t n = ::read(fd, buf, sizeof buf); if (n <= 0) break; r.append(buf, (size_t)n); }
-  return r;
-}
-
-struct Helper {
-  pid_t pid = -1; int req = -1, rsp = -1, err = -1; std::string key, buf;
-  void closeAll() { if (req >= 0) close(req); if (rsp >= 0) close(rsp); if (err >= 0) close(err); req = rsp = err = -1; pid = -1; buf.clear(); }
-  void kill9() { if (pid > 0) { ::kill(pid, SIGKILL); int st; while (waitpid(pid, &st, 0) < 0 && errno == EINTR) {} } closeAll(); }
-  // read one '\n'-terminated line; false on EOF / timeout (timedOut set)
-  bool line(std::string& out, int timeoutMs, bool& timedOut) {
-    timedOut = false;
-    for (;;) {
-      size_t nl = buf.find('\n');
-      if (nl != std::string::npos) { out = buf.substr(0, nl); buf.erase(0, nl + 1); return true; }
-      struct pollfd pf; pf.fd = rsp; pf.events = POLLIN; pf.revents = 0;
-      int pr = poll(&pf, 1, timeoutMs);
-      if (pr < 0) { if (errno == EINTR) continue; return false; }
-      if (pr == 0) { timedOut = true; return false; }
-      char tmp[8192]; ssize_t n = ::read(rsp, tmp, sizeof tmp);
-      if (n < 0 && errno == EINTR) continue;
-      if (n <= 0) return false;
-      buf.append(tmp, (size_t)n);
+// call right after R.explore(space,...) returned (in the main process)
+inline void recoverWitnesses(vf::Runner& R, const std::string& space) {
+  if (R.replay || bbDir().empty()) return;
+  struct Rec { std::string k, site, hist; };
+  std::vector<Rec> recs;
+  DIR* d = opendir(bbDir().c_str());
+  if (d) {
+    while (struct dirent* e = readdir(d)) {
+      std::string n = e->d_name; if (n.compare(0, 6, "c14bb.") != 0) continue;
+      std::string p = bbDir() + "/" + n;
+      FILE* f = fopen(p.c_str(), "r");
+      if (f) { char* line = nullptr; size_t cap = 0; ssize_t len = getline(&line, &cap, f);
+        if (len > 2 && line[0] == 'B') { std::string L(line, (size_t)len); if (!L.empty() && L.back() == '\n') L.pop_back();
+          std::vector<std::string> t; size_t s0 = 0; for (int q = 0; q < 3; ++q) { size_t tb = L.find('\t', s0); if (tb == std::string::npos) break; t.push_back(L.substr(s0, tb - s0)); s0 = tb + 1; } t.push_back(L.substr(s0));
+          if (t.size() == 4) recs.push_back({t[1], t[2], t[3]}); }
+        free(line); fclose(f); }
+      unlink(p.c_str());
     }
+    closedir(d);
   }
-};
-inline Helper& helper() { static Helper h; return h; }
-
-inline std::string serialise(const Sink& s) {
-  std::string o;
-  for (auto& f : s.fails) o += "F " + vf::esc(f.first) + "\t" + vf::esc(f.second) + "\n";
-  for (auto& t : s.tags) o += "T " + vf::esc(t) + "\n";
-  if (s.nontrivial) o += "N\n";
-  if (s.diverged) o += "D\n";
-  return o + "OK\n";
-}
-
-// S needs: std::string key() const; std::unique_ptr<S> fresh() const; void step(int op, Sink&, bool audit); std::vector<int> hist;
-template<class S> void serve(const S& proto, int reqfd, int rspfd, unsigned timeoutSec) {
-  std::string buf; char tmp[4096];
-  for (;;) {
-    size_t nl;
-    while ((nl = buf.find('\n')) == std::string::npos) { ssize_t n = ::read(reqfd, tmp, sizeof tmp); if (n < 0 && errno == EINTR) continue; if (n <= 0) _exit(0); buf.append(tmp, (size_t)n); }
-    std::string ln = buf.substr(0, nl); buf.erase(0, nl + 1);
-    std::vector<int> seq; { std::stringstream ss(ln); int x; while (ss >> x) seq.push_back(x); }
-    if (seq.empty()) _exit(0);
-    alarm(timeoutSec);
-    Sink s;
-    {
-      std::unique_ptr<S> sys = proto.fresh();
-      Sink q; q.quiet = true;
-      for (size_t i = 0; i + 1 < seq.size(); ++i) sys->step(seq[i], q, false);
-      sys->step(seq.back(), s, true);
-    }
-    alarm(0);
-    writeAll(rspfd, serialise(s));
-  }
-}
-
-template<class S> ProbeResult remoteStep(const S& sys, int op, unsigned timeoutSec) {
-  ProbeResult R; Helper& H = helper();
-  if (H.pid > 0 && H.key != sys.key()) H.kill9();
-  if (H.pid <= 0) {
-    int a[2], b[2];
-    if (pipe(a) || pipe(b)) { perror("pipe"); _exit(97); }
-    int efd = memfd_create("c14err", 0); if (efd < 0) { perror("memfd_create"); _exit(97); }
-    signal(SIGPIPE, SIG_IGN);
-    fflush(stdout); fflush(stderr);
-    pid_t p = fork();
-    if (p < 0) { perror("fork"); _exit(97); }
-    if (p == 0) {
-      close(a[1]); close(b[0]); dup2(efd, 2); close(efd);
-      signal(SIGALRM, SIG_DFL); signal(SIGPIPE, SIG_DFL);
-      struct itimerval z; memset(&z, 0, sizeof z); setitimer(ITIMER_REAL, &z, nullptr);
-      serve(sys, a[0], b[1], timeoutSec);
-      _exit(0);
-    }
-    close(a[0]); close(b[1]);
-    H.pid = p; H.req = a[1]; H.rsp = b[0]; H.err = efd; H.key = sys.key(); H.buf.clear();
-  }
-  std::string rq; for (int h : sys.hist) rq += vf::str(h) + " "; rq += vf::str(op) + "\n";
-  writeAll(H.req, rq);
-  for (;;) {
-    std::string ln; bool to = false;
-    if (!H.line(ln, (int)(timeoutSec + 5) * 1000, to)) {
-      if (to) { H.kill9(); R.how = 2; return R; }
-      int status = 0; while (waitpid(H.pid, &status, 0) < 0 && errno == EINTR) {}
-      std::string err = readAllAt0(H.err);
-      H.closeAll();
-      if (WIFSIGNALED(status) && WTERMSIG(status) == SIGALRM) { R.how = 2; return R; }
-      R.how = 1;
-      if (err.size() > 6000) err = err.substr(err.size() - 6000);
-      // same classification as the engine's supervisor (private static helpers; reachable because of -fno-access-control)
-      R.kind = vf::Runner::classify(err, status);
-      R.frames = vf::Runner::firstFrames(err);
-      size_t p1 = err.find("ERROR:"); if (p1 == std::string::npos) p1 = err.find("runtime error"); if (p1 == std::string::npos) p1 = err.size() > 300 ? err.size() - 300 : 0;
-      R.errtail = err.substr(p1, 300);
-      return R;
-    }
-    if (ln == "OK") return R;
-    if (ln.size() > 2 && ln[0] == 'F') { size_t tb = ln.find('\t', 2); R.sink.fails.push_back({vf::unesc(ln.substr(2, tb - 2)), tb == std::string::npos ? "" : vf::unesc(ln.substr(tb + 1))}); }
-    else if (ln.size() > 2 && ln[0] == 'T') R.sink.tags.push_back(vf::unesc(ln.substr(2)));
-    else if (ln == "N") R.sink.nontrivial = true;
-    else if (ln == "D") R.sink.diverged = true;
+  for (auto& v : R.total.viols) {
+    if (v.space != space) continue;
+    bool crash = v.sig.compare(0, 6, "crash|") == 0, hang = v.sig.compare(0, 5, "hang|") == 0;
+    if (!crash && !hang) continue;
+    if (v.detail.find("[history recovered") != std::string::npos) continue;
+    const Rec* best = nullptr;
+    for (int pass = 0; pass < 2 && !best; ++pass)
+      for (auto& r : recs) {
+        bool siteOk = v.sig.find("|" + r.site + (crash ? "|" : "")) != std::string::npos;
+        if (!siteOk) continue;
+        if (pass == 0 && r.k != v.witness) continue;
+        if (!best || r.hist.size() < best->hist.size()) best = &r;
+      }
+    if (best) { v.detail += " [history recovered from the harness black box; engine case index was " + v.witness + "]"; v.witness = best->hist; }
+    else R.harnessFail("C14: no black-box record for " + v.sig + " (case " + v.witness + " of " + space + ")");
   }
 }
 
